@@ -130,6 +130,31 @@ def diamond_family(rng, kind=None, p_hook=0.8, names=None):
         {'name': top, 'kind': kind, 'bases': tb, 'hooks': hooks()}]
 
 
+def mi_sibling_family(rng, kind=None, p_hook=0.8):
+    """Two roots A and B, a layer on both of them (either base order) and a
+    sibling on only one of them: going from the first to the second, exactly
+    one of the two roots has to be torn down - whichever position it has
+    among the layers that are set up."""
+    a, b, y, z, w = rng.sample(NAME_POOL, 5)
+    kind = kind or rng.choice(['class', 'inst'])
+
+    def hooks():
+        return {h: 'ok' for h in HOOKS if rng.random() < p_hook}
+    yb = [a, b]
+    rng.shuffle(yb)
+    roots = [{'name': a, 'kind': kind, 'bases': [], 'hooks': hooks()},
+             {'name': b, 'kind': kind, 'bases': [], 'hooks': hooks()}]
+    rng.shuffle(roots)
+    out = roots + [
+        {'name': y, 'kind': kind, 'bases': yb, 'hooks': hooks()},
+        {'name': z, 'kind': kind, 'bases': [rng.choice([a, b])],
+         'hooks': hooks()}]
+    if rng.random() < 0.5:
+        out.append({'name': w, 'kind': kind,
+                    'bases': [rng.choice([a, b])], 'hooks': hooks()})
+    return out
+
+
 def _mro_ok(specs, base_idx):
     """Check that a class with these bases has a consistent MRO."""
     classes = {}
